@@ -37,6 +37,9 @@ def std_dataset(rng, **kw):
     if kw['P'].get('chainy', 0) > 0.3 and rng.random() < 0.5:
         kw['maxleaves'] = max(kw['maxleaves'], rng.choice([9, 11, 13]))
     D = gen.make_dataset(rng, **kw)
+    # the tree text is varied too: branch lengths, and (synthesised names) no internal names
+    D.meta['lengths'] = rng.random() < 0.3
+    D.meta['nointernal'] = rng.random() < 0.3
     return D
 
 def respell(rng, D):
